@@ -191,8 +191,8 @@ def api(label, fam, op, args=None, coll=True, **call):
 def build_units():
     U = []
 
-    def u(name, steps, coll=False, when=None):
-        U.append(Unit(name, steps if isinstance(steps, list) else [steps], coll=coll, when=when))
+    def u(name, steps, coll=False, when=None, fam=None):
+        U.append(Unit(name, steps if isinstance(steps, list) else [steps], coll=coll, when=when, fam=fam))
 
     rec1 = lambda stt: stt.numrecs >= 1
     # ---- blocking put/get, collective and independent, every form
@@ -310,6 +310,21 @@ def build_units():
     u("del_att_missing", api("del_att(no such attribute)", "del_att", "del_att", {"v": -1, "name": hx("nope")}, missing=True), coll=True)
     u("copy_att_new", api("copy_att(new in target)", "copy_att", "copy_att", {"v": V_I, "name": hx("units"), "f2": "f0", "v2": V_C}, grows=True), coll=True)
     u("copy_att_same", api("copy_att(same size in target)", "copy_att", "copy_att", {"v": V_I, "name": hx("units"), "f2": "f0", "v2": V_RN}), coll=True)
+    # copy from a SECOND file (created for the purpose, then aborted) onto an existing, smaller attribute: only the mode of the
+    # destination file matters; the source file is in define mode (first unit) resp. data mode (second unit)
+    H = lambda label, op, **a: api(label, "helper", op, dict(a, f="f1"), coll=True)
+    big = b"twelve chars"
+    u("copy_att_larger_from_file_in_define_mode", [
+        H("helper create", "create", path=hx("h.nc"), mode=0),
+        H("helper put_att", "put_att", v=-1, name=hx("cpx"), xt=NC_CHAR, mt="text", n=len(big), hex=big),
+        api("copy_att(larger, source file in define mode)", "copy_att", "copy_att", {"f": "f1", "v": -1, "name": hx("cpx"), "f2": "f0", "v2": -1}, grows=True),
+        H("helper abort", "abort")], coll=True, fam="copy_att")
+    u("copy_att_larger_from_file_in_data_mode", [
+        H("helper create", "create", path=hx("h.nc"), mode=0),
+        H("helper put_att", "put_att", v=-1, name=hx("cpx"), xt=NC_CHAR, mt="text", n=len(big) + 4, hex=big + b"more"),
+        H("helper enddef", "enddef"),
+        api("copy_att(larger, source file in data mode)", "copy_att", "copy_att", {"f": "f1", "v": -1, "name": hx("cpx"), "f2": "f0", "v2": -1}, grows=True),
+        H("helper close", "close")], coll=True, fam="copy_att")
     # ---- fill
     u("fill_var_rec", api("fill_var_rec", "fill_var_rec", "fill_var_rec", {"v": V_R, "rec": 0}, rec_extent=1), coll=True)
     u("fill_var_rec_notrec", api("fill_var_rec(fixed variable)", "fill_var_rec", "fill_var_rec", {"v": V_I, "rec": 0}, notrec=True), coll=True)
@@ -459,7 +474,7 @@ def setup_define(b, create=True):
     for name, xt, dims in (("vi", NC_INT, [D_X]), ("vc", NC_CHAR, [D_Y]), ("vr", NC_INT, [D_T, D_X]), ("vrn", NC_INT, [D_X]), ("vfl", NC_INT, [D_X])):
         b.must("def_var", name=hx(name), xt=xt, dims=dims, ndims=len(dims))
     b.must("def_var_fill", v=V_R, nofill=0, fv=struct.pack("=i", -99))   # explicit _FillValue: fill mode of vr survives reopen
-    for v, name, val in ((-1, "title", b"hello"), (-1, "gdel", b"d"), (-1, "gre1", b"a"), (-1, "gre2", b"b"), (V_I, "units", b"abc"), (V_RN, "units", b"xyz")):
+    for v, name, val in ((-1, "title", b"hello"), (-1, "gdel", b"d"), (-1, "gre1", b"a"), (-1, "gre2", b"b"), (V_I, "units", b"abc"), (V_RN, "units", b"xyz"), (-1, "cpx", b"ab")):
         b.must("put_att", v=v, name=hx(name), xt=NC_CHAR, mt="text", n=len(val), hex=val)
 
 
